@@ -19,6 +19,8 @@ const (
 	KApplyClosure             // ... applies (env.Apply) a closure whose body fails
 	KMacro                    // ... evaluates a macro call whose expansion fails (macro-expansion time)
 	KPanicNested              // ... re-enters the VM successfully (eval + Apply), then panics
+	KPanicError               // the host function panics with an ERROR value (panic(err), what panicOn(err) does)
+	KPanicOther               // ... with a Go run-time error (index out of range, nil map write) or a value that is neither string nor error
 	KTwin                     // twin builder: hands over the shell (Duplicate taken at rest), then returns an error
 	// host-side catchers: the host function provokes a nested failure through a public re-entry
 	// point, handles the error itself and returns normally; the evaluation must go on exactly
@@ -32,7 +34,7 @@ const (
 	nCatchKinds = 4
 )
 
-var kindNames = []string{"script", "panic", "eval-compile", "eval-runtime", "apply-closure", "macro", "panic-nested", "twin",
+var kindNames = []string{"script", "panic", "eval-compile", "eval-runtime", "apply-closure", "macro", "panic-nested", "panic-error", "panic-other-value", "twin",
 	"catch-apply", "catch-eval-runtime", "catch-eval-compile", "catch-macro"}
 
 func (k FKind) String() string { return kindNames[k] }
@@ -155,6 +157,18 @@ func (it *Interp) failk(env *zygo.Zlisp, name string, args []zygo.Sexp) (zygo.Se
 			return zygo.SexpNull, fmt.Errorf("c05-harness: macro expansion error was not reported")
 		}
 		return zygo.SexpNull, fmt.Errorf(injected + ": macro")
+	case KPanicError:
+		panic(fmt.Errorf(injected))
+	case KPanicOther:
+		switch it.failAt % 3 {
+		case 0:
+			var xs []int
+			_ = xs[it.failCtr] // runtime error: index out of range
+		case 1:
+			var m map[string]int
+			m["k"] = 1 // runtime error: assignment to entry in nil map
+		}
+		panic(12345)
 	case KPanicNested:
 		f := list(sym(env, "fn"), &zygo.SexpArray{Val: []zygo.Sexp{sym(env, "a")}, Env: env},
 			list(sym(env, "+"), sym(env, "a"), &zygo.SexpInt{Val: 1}))
